@@ -1000,6 +1000,42 @@ def _bpki_share(unwrap, badpwd=False):
     return build
 
 
+def _bpki_wrongtype(share_unwrap):
+    """the right password on a well-formed container of the *other* kind: the ERR_BAD_FORMAT exit that is reached after the
+    payload has been decrypted (bpkiShareUnwrap on a private-key container and vice versa)"""
+    def build(lib, rng, size):
+        salt = rb(rng, 8)
+        it = 10000
+        fn = "bpkiShareUnwrap" if share_unwrap else "bpkiPrivkeyUnwrap"
+        c = Call(fn + ":other-container", getattr(lib, fn), "payload-of-the-other-kind")
+        c.expect_ok = False
+        for v in c.v:
+            pwd = rb(rng, 12)
+            if share_unwrap:
+                plen = rng.choice([32, 48, 64])
+                payload = rb(rng, plen)
+                wrap = lib.bpkiPrivkeyWrap
+            else:
+                plen = rng.choice([17, 25, 33])
+                payload = bytes([rng.randrange(1, 17)]) + rb(rng, plen - 1)
+                wrap = lib.bpkiShareWrap
+            ln = lib.alloc(8, 0)
+            if wrap(0, ln, lib.mk(payload), plen, lib.mk(pwd), 12, lib.mk(salt), it) != ERR_OK:
+                raise Harness("bpki wrap size probe failed")
+            n = lib.rd_size(ln)
+            epki = lib.alloc(n)
+            if wrap(epki, lib.alloc(8, 0), lib.mk(payload), plen, lib.mk(pwd), 12, lib.mk(salt), it) != ERR_OK:
+                raise Harness("bpki wrap failed")
+            cont = lib.rd(epki, n)
+            out = lib.alloc(64)
+            v.args = [out, lib.alloc(8, 0), lib.mk(cont), n, lib.mk(pwd), 12]
+            v.outs = [(out, 64)]
+            v.pub = [cont]
+            v.needles = [pwd, payload]
+        return c
+    return build
+
+
 def _bpki_csr_rewrap(lib, rng, size):
     from .c09_contracts import CSR_HEX       # the request of bpki_test.c
     csr0 = bytes.fromhex(CSR_HEX)
@@ -1321,6 +1357,7 @@ _ROUND2_HEAVY = {
     "bignKeypairVal": _keypair_val(False), "bignKeypairVal:bad": _keypair_val(False, True),
     "bignIdExtract": _bign_id_extract, "bignIdSign": _bign_id_sign(False), "bignIdSign2": _bign_id_sign(True),
     "bpkiShareWrap": _bpki_share(False), "bpkiShareUnwrap": _bpki_share(True), "bpkiShareUnwrap:bad": _bpki_share(True, True),
+    "bpkiShareUnwrap:other": _bpki_wrongtype(True), "bpkiPrivkeyUnwrap:other": _bpki_wrongtype(False),
     "bpkiCSRRewrap": _bpki_csr_rewrap,
     "btokCVCWrap": _btok_cvc_wrap, "btokCVCIss": _btok_cvc_iss,
     "btokCVCMatch": _btok_cvc_match(), "btokCVCMatch:bad": _btok_cvc_match(True),
